@@ -13,6 +13,7 @@ pub mod cache;
 pub mod control;
 pub mod data;
 pub mod routing;
+pub mod security;
 
 pub struct Ctx<'a> {
     pub spec: &'a Spec,
@@ -203,6 +204,7 @@ pub fn evaluate(spec: &Spec, completed: bool) -> Vec<Violation> {
             "c17_shutdown" => control::c17_shutdown(&mut cx),
             "c14_reload" => control::c14_reload(&mut cx),
             "c18_stats" => control::c18_stats(&mut cx),
+            "c09_auth" => security::c09_auth(&mut cx),
             "c07_bans" => routing::c07_bans(&mut cx),
             "c07_expiry" => routing::c07_expiry(&mut cx),
             other => {
